@@ -14,14 +14,25 @@ A program is a dict
     {"kind": "tx"|"plain", "mode": "fast"|"locked"|"serializable", "timeout": <u, multiple of 20>,
      "form": "ctx"|"dec", "ops": [op, ...]}
     op = ["set",k,v] | ["incr",k,n] | ["get",k] | ["del",k] | ["expire",k(,ttl seconds)] | ["setx",k,v,1|0] | ["sleep",ticks]
-       | ["raise"] | ["nin",form] | ["nout"]          (setx = cache.set(k, v, exist=True|False); its result is recorded as 1/0)
+       | ["raise"] | ["raise","base"] | ["nin",form] | ["nout"]   (setx = cache.set(k, v, exist=True|False); its result is recorded as 1/0;
+                                                                 ["raise","base"] raises a BaseException subclass that is not an Exception)
+       | ["commit"] | ["rollback"]   explicit `await tx.commit()` / `await tx.rollback()` on the `Transaction` object that the innermost
+                                     enclosing `async with cache.transaction(...) as tx` returned (the body goes on afterwards)
        | ["gc"]  (environment event, not part of the model: an abandoned call of the decorated function is finalised
                   while this task runs; it must not affect this task)
-Keys are small ints (store key "k<i>").  A run is a pure function of (init store, programs, schedule).
+Keys are small ints (store key "k<i>").  A run is a pure function of (init store, programs, schedule, cancels).
+
+Cancellation.  With `cancels = n > 0` the scheduler may, at a step, instead of releasing a parked task CANCEL a task
+(`task.cancel()`, at most n times per run) that is suspended INSIDE THE BODY of its block: parked before a backend command of the
+body (including the `set_lock` of a lock wait and the backend read of an incr / expire / conditional set) or asleep (in the
+0.1 s sleep between two `set_lock` attempts, or in a body sleep).  `asyncio.CancelledError` is raised at that await.  Tasks that
+have not started, are inside a commit (`set_many` / `delete_many`) or are releasing locks are not cancelled.  A schedule entry c
+selects among [release parked task 0..p-1] + [cancel cancellable task 0..q-1] (c mod (p+q)); an exhausted schedule never cancels.
 
 `expire` uses real TTLs (default 1 h, far beyond any run: nothing ever expires).  A commit flushes its buffer with one
 `set_many` per TTL group, back to back; the scheduler releases the 2nd, 3rd, ... `set_many` of a commit in the same step
-as the first (one step "set_many" with the union of the pairs) - the model has no TTLs, hence one group.
+as the first (one step "set_many" with the union of the pairs) - the model has no TTLs, hence one group.  (The set_many of the
+next commit of the same task - after an explicit `tx.commit()` returned - is of course a step of its own.)
 """
 from __future__ import annotations
 
@@ -80,8 +91,9 @@ class SchedError(Exception):
 class TxSched:
     """release one parked task per step; choice = index into the sorted list of parked task ids"""
 
-    def __init__(self, schedule=()):
+    def __init__(self, schedule=(), cancels=0):
         self.schedule = list(schedule)
+        self.cancels = int(cancels)
         self.pos = 0
         self.parked: dict[tuple, tuple[asyncio.Future, Any]] = {}
         self.tasks: dict[int, asyncio.Task] = {}
@@ -92,6 +104,7 @@ class TxSched:
         self._wake: asyncio.Event | None = None
         self.max_steps = 4000
         self.merged_groups = 0
+        self.boundary: set[int] = set()   # tasks whose explicit tx.commit()/tx.rollback() returned since their last released command
         self.after_step = None       # callback(tid, label) once the released command has run and the loop is quiet
 
     async def point(self, label=None):
@@ -155,7 +168,7 @@ class TxSched:
             if last is not None and last[1] and last[1][0] == "set_many":
                 # the next TTL group of the same commit: same step
                 nxt = self.parked.get((last[0], ""))
-                if nxt is not None and nxt[1] and nxt[1][0] == "set_many":
+                if nxt is not None and nxt[1] and nxt[1][0] == "set_many" and last[0] not in self.boundary:
                     fut, label = self.parked.pop((last[0], ""))
                     if not self.trace or self.trace[-1][:2] != ("run", last[0]):
                         raise SchedError("set_many groups of one commit are not consecutive")
@@ -181,19 +194,37 @@ class TxSched:
                     raise SchedError("deadlock: nobody parked and no timer within an hour")
                 continue
             tids = sorted({k[0] for k in self.parked})
+            cancellable = []
+            if self.cancels > 0:
+                for t, task in sorted(self.tasks.items()):
+                    if task.done() or t in self.outcomes:
+                        continue
+                    keys = [k for k in self.parked if k[0] == t]
+                    if not keys:
+                        cancellable.append(t)           # asleep: between two set_lock attempts, or in a body sleep
+                    elif keys == [(t, "")] and self.parked[(t, "")][1][0] not in ("start", "set_many", "delete_many"):
+                        cancellable.append(t)           # parked before a backend command of its body
             if self.pos < len(self.schedule):
                 c = self.schedule[self.pos]
                 self.pos += 1
             else:
                 c = 0
-            c %= len(tids)
-            self.branching.append(len(tids))
+            c %= len(tids) + len(cancellable)
+            self.branching.append(len(tids) + len(cancellable))
             self.choices.append(c)
+            if c >= len(tids):
+                tid = cancellable[c - len(tids)]
+                self.cancels -= 1
+                self.trace.append(("cancel", tid))
+                last = (tid, ("cancel",))
+                self.tasks[tid].cancel()
+                continue
             tid = tids[c]
             key = min(k for k in self.parked if k[0] == tid)
             fut, label = self.parked.pop(key)
             self.trace.append(("run", tid, label))
             last = (tid, label)
+            self.boundary.discard(tid)
             fut.set_result(None)
         loop.on_jump = None
         return self.outcomes
@@ -232,6 +263,10 @@ class BodyError(Exception):
     pass
 
 
+class BodyBase(BaseException):
+    """a user-defined BaseException that is not an Exception"""
+
+
 MODES = {"fast": "FAST", "locked": "LOCKED", "serializable": "SERIALIZABLE"}
 
 
@@ -258,7 +293,7 @@ def split_nested(ops):
     return tree
 
 
-def execute(init: dict, programs: list[dict], schedule: list[int], snapshot=True):
+def execute(init: dict, programs: list[dict], schedule: list[int], snapshot=True, cancels=0):
     """Run the programs concurrently on one Cache('mem://') whose Memory is gated by the scheduler.
     Returns dict(trace=[...], outcomes={tid: ...}, snaps=[store after each run step], final=store, branching, choices)."""
     from cashews import Cache
@@ -270,7 +305,7 @@ def execute(init: dict, programs: list[dict], schedule: list[int], snapshot=True
         cache = Cache()
         mem = cache.setup("mem://", check_interval=0, size=10000)
         mem.__class__ = G
-        sched = TxSched(schedule)
+        sched = TxSched(schedule, cancels)
         _CURRENT[0] = sched
         await cache.init()
         for k, v in sorted(init.items()):
@@ -304,6 +339,7 @@ def execute(init: dict, programs: list[dict], schedule: list[int], snapshot=True
 
         def make(tid, p):
             results = []
+            handles = []        # `Transaction` objects of the enclosing `async with ... as tx` blocks (None: decorator form)
             mode, timeout = p.get("mode", "locked"), p.get("timeout", 400)
 
             async def run_ops(tree):
@@ -325,7 +361,19 @@ def execute(init: dict, programs: list[dict], schedule: list[int], snapshot=True
                     elif op[0] == "sleep":
                         await asyncio.sleep(op[1] * 5 / U)
                     elif op[0] == "raise":
+                        if len(op) > 1 and op[1] == "base":
+                            raise BodyBase()
                         raise BodyError()
+                    elif op[0] in ("commit", "rollback"):
+                        tx = next((h for h in reversed(handles) if h is not None), None)
+                        if tx is None:
+                            raise SchedError(f"{op[0]} without a Transaction object at hand in task {tid}")
+                        if op[0] == "commit":
+                            await tx.commit()
+                        else:
+                            await tx.rollback()
+                        # a later set_many of this task belongs to another commit (not another TTL group of this one)
+                        sched.boundary.add(tid)
                     elif op[0] == "gc":
                         # an abandoned call of the decorated function (started in its own context, suspended in its
                         # body) is finalised - as the garbage collector would - while *this* task is running
@@ -344,10 +392,18 @@ def execute(init: dict, programs: list[dict], schedule: list[int], snapshot=True
 
             async def in_block(form, tree):
                 if form == "dec":
-                    await dec_for(mode, timeout)(lambda: run_ops(tree))
+                    handles.append(None)
+                    try:
+                        await dec_for(mode, timeout)(lambda: run_ops(tree))
+                    finally:
+                        handles.pop()
                 else:
-                    async with cache.transaction(getattr(TransactionMode, MODES[mode]), timeout=timeout / U):
-                        await run_ops(tree)
+                    async with cache.transaction(getattr(TransactionMode, MODES[mode]), timeout=timeout / U) as tx:
+                        handles.append(tx)
+                        try:
+                            await run_ops(tree)
+                        finally:
+                            handles.pop()
 
             async def prog():
                 tree = split_nested(p["ops"])
@@ -390,13 +446,13 @@ def execute(init: dict, programs: list[dict], schedule: list[int], snapshot=True
         _CURRENT[0] = None
 
 
-def enumerate_all(init, programs, limit=100000):
+def enumerate_all(init, programs, limit=100000, cancels=0):
     """stateless DFS over the choice sequences of one program set; yields (choices, result)"""
     stack = [[]]
     seen = 0
     while stack and seen < limit:
         prefix = stack.pop()
-        res = execute(init, programs, prefix)
+        res = execute(init, programs, prefix, cancels=cancels)
         seen += 1
         br = res["branching"]
         full = res["choices"]
